@@ -100,6 +100,10 @@ ADMIN_MODELS = [
      "setup": "setups/auth.json", "init_from_setup": True},
 ]
 
+ORACLE_MODELS = [
+    {"name": "oracle", "module": "Oracle.tla", "cfg": {"quick": "MC_OracleQuick.cfg", "thorough": "MC_OracleThorough.cfg"},
+     "setup": "setups/oracle.json", "init_from_setup": True, "timeout": {"quick": 900, "thorough": 7200}},
+]
 CONFIG_MODELS = [
     {"name": "config", "module": "Config.tla", "cfg": {"quick": "MC_ConfigQuick.cfg", "thorough": "MC_ConfigThorough.cfg"},
      "setup": "setups/config.json", "init_from_setup": True, "timeout": {"quick": 900, "thorough": 7200}},
@@ -155,7 +159,7 @@ PROPS = {
     "C04": dict(risk_prop(["borrow", "withdraw"]), drivers=RISK_DRIVERS + LEDGER_DRIVERS + STAKED_DRIVERS),
     "C05": risk_prop2(["liquidate"], LIQ_DRIVERS + LEDGER_DRIVERS + STAKED_DRIVERS, models=RISK_MODELS),
     "C07": risk_prop2(["bankruptcy"], LIQ_DRIVERS + LEDGER_DRIVERS, models=RISK_MODELS),
-    "C09": risk_prop2(["borrow", "withdraw", "liquidate", "bankruptcy", "pulse_health"], LIQ_DRIVERS + RISK_DRIVERS + LEDGER_DRIVERS + STAKED_DRIVERS, models=RISK_MODELS),
+    "C09": risk_prop2(["borrow", "withdraw", "liquidate", "bankruptcy", "pulse_health"], LIQ_DRIVERS + RISK_DRIVERS + LEDGER_DRIVERS + STAKED_DRIVERS, models=RISK_MODELS + ORACLE_MODELS),
     "C13": risk_prop2(["add_bank", "add_bank_staked", "init_staked_settings", "edit_staked_settings", "propagate_staked", "configure_bank", "configure_emode", "borrow", "withdraw", "pulse_health", "bankruptcy", "clone_emode"],
                       LIQ_DRIVERS + RISK_DRIVERS + ADMIN_DRIVERS + STAKED_DRIVERS, models=RISK_MODELS + CONFIG_MODELS),
     "C14": risk_prop2(["deposit", "withdraw", "borrow", "repay", "liquidate", "bankruptcy", "propagate_fee"], LIQ_DRIVERS + RISK_DRIVERS, models=GATE_MODELS),
